@@ -38,9 +38,29 @@ def reach_start(prefixes):
         return mon.DISABLE
 
     mon.register_callback(tool, mon.events.PY_START, on_start)
-    mon.set_events(tool, mon.events.PY_START)
+    events = mon.events.PY_START
+    lines = None
+    if os.environ.get("CV_LINECOV"):
+        # optional workload audit (tools/linecov.py): which statements of cobra the shard executed
+        lines = set()
+
+        def on_line(code, line):
+            fn = code.co_filename
+            i = fn.find("/cobra/")
+            if i >= 0:
+                lines.add((fn[i + 1:], line))
+            return mon.DISABLE
+
+        mon.register_callback(tool, mon.events.LINE, on_line)
+        events |= mon.events.LINE
+    mon.set_events(tool, events)
 
     def stop():
+        if lines is not None:
+            d = os.environ["CV_LINECOV"]
+            os.makedirs(d, exist_ok=True)
+            with open(os.path.join(d, "%d.json" % os.getpid()), "w") as f:
+                json.dump(sorted(lines), f)
         try:
             mon.set_events(tool, 0)
             mon.free_tool_id(tool)
@@ -77,7 +97,12 @@ def main():
         acc.harness_error(f"cobra imported from {cobra.__file__}, expected {want}")
     else:
         try:
-            mod.run_shard(desc, acc)
+            if desc.get("kind") == "suite":
+                from cv import suiterun
+
+                suiterun.run(prop, desc, acc)
+            else:
+                mod.run_shard(desc, acc)
         except Exception as e:  # harness failure, not a verdict
             acc.harness_error("run_shard raised", e)
     stop()
